@@ -492,6 +492,14 @@ def build_samples():
     return rc == 0, log, out
 
 
+def overloaded():
+    """more runnable processes than 1.5 x cores over the last minute"""
+    try:
+        return os.getloadavg()[0] > 1.5 * (os.cpu_count() or 1)
+    except OSError:
+        return False
+
+
 def one_run(args):
     """One whole run in a scratch directory under a timeout.  A run that printed its
     verification result and then died in the tear-down race of the sample runner
@@ -510,11 +518,12 @@ def one_run(args):
         if rc not in (0, 124) and 'Passed' in log and 'assignment to entry in nil map' in log and retries < 2:
             retries += 1
             continue
-        if rc == 124 and not slow_retry:
-            # a run that exceeds its limit is repeated once with six times the limit before it is believed to
-            # hang: on a loaded machine a 20 s run can take longer than 45 s (a genuine hang still times out)
+        if rc == 124 and not slow_retry and overloaded():
+            # a run that exceeds its limit WHILE THE MACHINE IS OVERLOADED is repeated once with four times the
+            # limit before it is believed to hang: at load 100 on 16 cores a 20 s run took longer than 45 s
+            # (a genuine hang still times out; on a quiet machine nothing is repeated)
             slow_retry = True
-            timeout = timeout * 6
+            timeout = timeout * 4
             continue
         break
     return {'cmd': [name] + opts + ['-verify'], 'rc': rc, 'passed': rc == 0 and 'Passed' in log,
@@ -594,8 +603,8 @@ def e2e_one(args):
     t0 = time.time()
     try:
         rc, log = vlib.run(cmd, cwd=d, timeout=90)
-        if rc == 124:   # repeated once with a long limit before it is believed to hang (loaded machine)
-            rc, log = vlib.run(cmd, cwd=d, timeout=540)
+        if rc == 124 and overloaded():   # repeated once with a long limit before it is believed to hang
+            rc, log = vlib.run(cmd, cwd=d, timeout=360)
     finally:
         shutil.rmtree(d, ignore_errors=True)
     res = {'bench': bench, 'size': size, 'gpus': gl, 'unified': unified, 'timing': timing, 'rc': rc,
